@@ -156,6 +156,14 @@ def plan(rng, tier):
                         if mapping else
                         [["remove", k], ["spop"], ["discard", k],
                          ["keys"], ["iter"]])
+    if is_tree(kind) and rng.random() < 0.06:
+        # a lazy sequence made and indexed / sliced in one go (on stored
+        # containers the leaves it has to count and to walk are ghosts)
+        nn = len(g.model.d)
+        op = ["seqidx", rng.choice(["keys", "values", "items"] if mapping
+                                   else ["keys"]),
+              rng.choice([rng.randint(-nn - 1, nn), rng.randint(-nn - 1, nn),
+                          [rng.randint(-nn, nn), rng.randint(-nn, nn)]])]
     if tier == "survey" and rng.random() < 0.4:
         # exploratory only (tools/survey.py --tier survey), not part of the
         # registered check: CPython's own allocator fails (see DESIGN 10)
